@@ -44,8 +44,9 @@ def decompose_gate_to_cliffords(gate, abs_tol=1e-4):
 
     # Find which Clifford parameter gate parameter corresponds to.
     clifford_values = [0, pi, pi / 2, -pi / 2]
+    # The signed distance modulo 2*pi is used, so that parameters slightly below a multiple of 2*pi are matched too.
     clifford_parameter = next((value for value in clifford_values if
-                               isclose(gate.parameter % (2 * pi), value % (2 * pi), abs_tol=abs_tol)), None)
+                               isclose((gate.parameter - value + pi) % (2 * pi) - pi, 0, abs_tol=abs_tol)), None)
 
     if clifford_parameter is None:
         raise ValueError(f"Error: Parameterized gate {gate} cannot be decomposed into Clifford gates")
